@@ -19,10 +19,11 @@ broadcast use {f64ax::group_f64_axioms};
 
 // ---- C06 ----
 // R-ext: `shortest_paths.iter().map(|(_, sp)| sp).sum::<f64>()` (tuple-pattern closure + Iterator::sum are outside Verus):
-// ASSUMED (A5) to return the left fold of f64 `+` over the second components, starting from 0.0
+// ASSUMED (A5) to return the fold of f64 `+` over the second components; the only fact used is that the sum of an empty list
+// is not greater than 0.0 (std starts the fold from a zero: 0.0 or -0.0 depending on the toolchain)
 pub uninterp spec fn fsum_snd(s: Seq<(usize, f64)>) -> f64;
 pub broadcast axiom fn axiom_fsum_snd_empty(s: Seq<(usize, f64)>)
-    ensures s.len() == 0 ==> #[trigger] fsum_snd(s) == 0.0f64;
+    ensures s.len() == 0 ==> !flt(0.0f64, #[trigger] fsum_snd(s));
 #[verifier::external_body]
 pub fn vsum_snd(v: &Vec<(usize, f64)>) -> (r: f64)
     ensures r == fsum_snd(v@)
